@@ -682,3 +682,159 @@ Proof.
   pose proof (shift_all_spec (Z.of_nat (length (abs a))) (abs b)) as H.
   destruct (shift_all (Z.of_nat (length (abs a))) (abs b)) as [sb|]; rewrite H; reflexivity.
 Qed.
+
+(* ---------- the builder on array items: asArray denotes the items it was given (no two at one index) ---------- *)
+
+Lemma set_nth_opt_length {A} (x : A) : forall l n, length (set_nth_opt n x l) = length l.
+Proof. induction l as [|y l IH]; intros [|n]; simpl; try reflexivity. rewrite IH. reflexivity. Qed.
+
+Lemma nth_error_set_nth_opt {A} (x : A) : forall l n j,
+  nth_error (set_nth_opt n x l) j = if (j =? n)%nat && (n <? length l)%nat then Some x else nth_error l j.
+Proof.
+  induction l as [|y l IH]; intros n j.
+  - destruct n; simpl; rewrite andb_false_r; reflexivity.
+  - destruct n as [|n], j as [|j]; simpl; try reflexivity. rewrite IH. reflexivity.
+Qed.
+
+Fixpoint last_write (l : list (Z * val)) (i : Z) : option val :=
+  match l with
+  | [] => None
+  | (i', x) :: l' => match last_write l' i with Some y => Some y | None => if i' =? i then Some x else None end
+  end.
+
+Lemma fill_fold lo : forall l acc j,
+  (forall t, In t l -> lo <= fst t < lo + Z.of_nat (length acc)) ->
+  nth_error (fold_left (fun acc t => set_nth_opt (Z.to_nat (fst t - lo)) (Some (snd t)) acc) l acc) j =
+  match last_write l (lo + Z.of_nat j) with Some x => if (j <? length acc)%nat then Some (Some x) else None | None => nth_error acc j end.
+Proof.
+  induction l as [|[i x] l IH]; intros acc j Hr; [reflexivity|].
+  cbn [fold_left last_write fst snd]. rewrite IH.
+  - rewrite set_nth_opt_length. destruct (last_write l (lo + Z.of_nat j)); [reflexivity|].
+    rewrite nth_error_set_nth_opt.
+    assert (Hi : lo <= i < lo + Z.of_nat (length acc)) by (apply (Hr (i, x)); left; reflexivity).
+    destruct (i =? lo + Z.of_nat j) eqn:E.
+    + apply Z.eqb_eq in E. replace (Z.to_nat (i - lo)) with j by lia. rewrite Nat.eqb_refl.
+      destruct (j <? length acc)%nat eqn:E2; [reflexivity|]. apply Nat.ltb_ge in E2. lia.
+    + apply Z.eqb_neq in E. destruct (j =? Z.to_nat (i - lo))%nat eqn:E2; [|reflexivity].
+      apply Nat.eqb_eq in E2. lia.
+  - intros t Ht. rewrite set_nth_opt_length. apply Hr. right. exact Ht.
+Qed.
+
+Lemma min_max_bounds l lo hi : min_max l = Some (lo, hi) -> forall t, In t l -> lo <= fst t <= hi.
+Proof.
+  revert lo hi; induction l as [|[i x] l IH]; intros lo hi; [discriminate|].
+  cbn [min_max]. destruct (min_max l) as [[lo' hi']|] eqn:E.
+  - intros [= <- <-] t [<-|Ht]; [simpl; lia|]. specialize (IH lo' hi' eq_refl t Ht). lia.
+  - intros [= <- <-] t [<-|Ht]; [simpl; lia|]. destruct l as [|[i' x'] l]; [destruct Ht|].
+    cbn [min_max] in E. destruct (min_max l) as [[a b]|]; discriminate.
+Qed.
+
+Lemma vpair_eq nm a b x : a = b -> vpair nm (vint a) x = vpair nm (vint b) x.
+Proof. intros ->. reflexivity. Qed.
+
+Lemma in_opt_members nm m : forall c o,
+  In m (opt_members nm o c) <-> exists j x, nth_error c j = Some (Some x) /\ m = vpair nm (vint (o + Z.of_nat j)) x.
+Proof.
+  induction c as [|y c IH]; intros o.
+  - split; [intros [] | intros (j & x & H & _); destruct j; discriminate].
+  - destruct y as [v|]; cbn [opt_members In]; rewrite IH; split.
+    + intros [<-|(j & x & H & ->)].
+      * exists 0%nat, v. split; [reflexivity|]. apply vpair_eq; lia.
+      * exists (S j), x. split; [exact H|]. apply vpair_eq; lia.
+    + intros ([|j] & x & H & ->).
+      * left. simpl in H. injection H as <-. apply vpair_eq; lia.
+      * right. exists j, x. split; [exact H|]. apply vpair_eq; lia.
+    + intros (j & x & H & ->). exists (S j), x. split; [exact H|]. apply vpair_eq; lia.
+    + intros ([|j] & x & H & ->); [discriminate|]. exists j, x. split; [exact H|]. apply vpair_eq; lia.
+Qed.
+
+Lemma last_write_in l i x : last_write l i = Some x -> In (i, x) l.
+Proof.
+  induction l as [|[i' y] l IH]; [discriminate|]. cbn [last_write].
+  destruct (last_write l i) as [z|].
+  - intros [= ->]. right. apply IH. reflexivity.
+  - destruct (i' =? i) eqn:E; [|discriminate]. apply Z.eqb_eq in E. intros [= ->]. left. congruence.
+Qed.
+
+Lemma in_last_write l i x : In (i, x) l -> exists y, last_write l i = Some y.
+Proof.
+  induction l as [|[i' y] l IH]; [intros []|]. cbn [last_write]. intros [H|H].
+  - injection H as -> ->. destruct (last_write l i); [eexists; reflexivity|]. rewrite Z.eqb_refl. eexists; reflexivity.
+  - destruct (IH H) as (z & ->). eexists; reflexivity.
+Qed.
+
+(* asArray: when no two of the items it is given sit at one index with different values, the array it builds
+   denotes exactly those items (its offset is the least index, gaps are holes) and its count field is right *)
+Theorem as_array_refines l :
+  l <> [] -> (forall i x y, In (i, x) l -> In (i, y) l -> x = y) ->
+  wf (as_array l) /\
+  forall m, In m (abs (as_array l)) <-> exists i x, In (i, x) l /\ m = vpair n_item (vint i) x.
+Proof.
+  intros Hne Hnc. unfold as_array. destruct (min_max l) as [[lo hi]|] eqn:Emm.
+  2:{ destruct l as [|[i x] l]; [congruence|]. cbn [min_max] in Emm. destruct (min_max l) as [[a b]|]; discriminate. }
+  pose proof (min_max_bounds l lo hi Emm) as Hb.
+  assert (Hlohi : lo <= hi) by (destruct l as [|t l]; [congruence|]; specialize (Hb t (or_introl eq_refl)); lia).
+  set (n := Z.to_nat (hi - lo + 1)).
+  assert (Hfill : forall j, nth_error (fill lo n l) j =
+            match last_write l (lo + Z.of_nat j) with Some x => if (j <? n)%nat then Some (Some x) else None
+                                                 | None => nth_error (repeat None n) j end).
+  { intros j. unfold fill. rewrite fill_fold; rewrite repeat_length; [reflexivity|].
+    intros t Ht. specialize (Hb t Ht). unfold n. lia. }
+  split.
+  - unfold wf. cbn [wfb]. rewrite Z.eqb_refl, andb_true_r.
+    destruct (fill lo n l) eqn:Ef; [|reflexivity]. exfalso.
+    specialize (Hfill 0%nat).
+    destruct (last_write l (lo + Z.of_nat 0)); simpl in Hfill.
+    + destruct (0 <? n)%nat eqn:E; [discriminate|]. apply Nat.ltb_ge in E. unfold n in E. lia.
+    + destruct n eqn:En; [unfold n in En; lia | discriminate].
+  - intros m. cbn [abs]. rewrite in_opt_members. split.
+    + intros (j & x & Hj & ->). rewrite Hfill in Hj. destruct (last_write l (lo + Z.of_nat j)) as [y|] eqn:El.
+      * destruct (j <? n)%nat; [|discriminate]. injection Hj as ->. exists (lo + Z.of_nat j), x. split; [apply last_write_in, El | reflexivity].
+      * exfalso. clear -Hj. revert j Hj. induction n as [|n IH]; intros [|j]; simpl; try discriminate. apply IH.
+    + intros (i & x & Hin & ->). pose proof (Hb _ Hin) as Hi. cbn [fst] in Hi.
+      destruct (in_last_write l i x Hin) as (y & Hy).
+      assert (y = x) by (apply (Hnc i); [apply last_write_in, Hy | exact Hin]). subst y.
+      exists (Z.to_nat (i - lo)), x. split; [|apply vpair_eq; lia].
+      rewrite Hfill. replace (lo + Z.of_nat (Z.to_nat (i - lo))) with i by lia. rewrite Hy.
+      destruct (Z.to_nat (i - lo) <? n)%nat eqn:E; [reflexivity|]. apply Nat.ltb_ge in E. unfold n in E. lia.
+Qed.
+
+Lemma items_of_item ms : forall l,
+  items_of n_item ms = Some l -> ms = map (fun t => vpair n_item (vint (fst t)) (snd t)) l.
+Proof.
+  induction ms as [|m ms IH]; intros l; cbn [items_of].
+  - intros [= <-]. reflexivity.
+  - destruct (sugar_slot m) as [[n i]|] eqn:Es; [|discriminate].
+    destruct (item_at m) as [[i' x]|] eqn:Ei; [|discriminate].
+    destruct (items_of n_item ms) as [r|]; [|discriminate].
+    destruct (name_eqb n n_item) eqn:En; [|discriminate]. intros [= <-].
+    cbn [map fst snd]. rewrite <- (IH r eq_refl). f_equal.
+    destruct m as [|attrs|]; try discriminate.
+    destruct attrs as [|[n1 k] [|[n2 y] [|p q]]]; try discriminate; (destruct k as [[z|z]| |]; try discriminate).
+    cbn [sugar_slot item_at] in Es, Ei. injection Ei as <- <-.
+    destruct (name_eqb n1 n_at) eqn:E1; [|discriminate]. apply name_eqb_eq in E1. subst n1.
+    destruct (name_eqb n2 n_item) eqn:E2.
+    + apply name_eqb_eq in E2. subst n2. reflexivity.
+    + exfalso. destruct (name_eqb n2 n_char).
+      * destruct y as [[?|?]| |]; try discriminate. injection Es as <- _. discriminate En.
+      * destruct (name_eqb n2 n_byte); [|discriminate].
+        destruct y as [[?|?]| |]; try discriminate. injection Es as <- _. discriminate En.
+Qed.
+
+(* a ++ b on arrays, to the layout: when everything handed to the builder is an array item and no two different
+   items meet at one index (outside KF-C05-01), the result is the Array asArray builds, it is well formed and it
+   denotes exactly a's items and b's shifted items *)
+Theorem rep_concat_array_layout a b ms l :
+  rep_concat_added a b = Some ms -> ms <> [] -> items_of n_item ms = Some l ->
+  (forall i x y, In (i, x) l -> In (i, y) l -> x = y) ->
+  rep_concat a b = Some (as_array l) /\ wf (as_array l) /\ forall m, In m (abs (as_array l)) <-> In m ms.
+Proof.
+  intros Ha Hne Hl Hnc. pose proof (items_of_item ms l Hl) as Hms.
+  assert (Hln : l <> []) by (intros ->; apply Hne; exact Hms).
+  destruct (as_array_refines l Hln Hnc) as [Hwf Hin].
+  split; [|split; [exact Hwf|]].
+  - unfold rep_concat. rewrite Ha. unfold seq_finish. destruct ms; [congruence|]. rewrite Hl. reflexivity.
+  - intros m. rewrite Hin, Hms, in_map_iff. split.
+    + intros (i & x & H & ->). exists (i, x). split; [reflexivity | exact H].
+    + intros ([i x] & <- & H). exists i, x. split; [exact H | reflexivity].
+Qed.
